@@ -83,7 +83,7 @@ def obligations():
                 op='swap_' + kind, op2='swap_%s2' % kind)
             obs.append(Ob(id='C17.' + n, props=['C17', 'C12', 'C03', 'C01'], tu='kernel', tier='B',
                           roots=[TK + '::swap_%s_indices' % kind], harness=mh, includes=['wf.h', 'view.h'],
-                          copies=[TK], defines=d, inline_vec=INLINE, unwind=6, covers=2, timeout=600,
+                          copies=[TK], defines=d, inline_vec=INLINE, unwind=6, covers=2, timeout=900, quick=not (kind == 'face' and on == 'ef'),
                           bounds=dict(vertices=2, edges=2, faces=2, cells=2, face_valence=2, cell_valence=2, incident_list=2),
                           note='swap_%s_indices on any WF state within the bounds; bottom-up kinds enabled: %s' % (kind, on or 'none')))
     return obs
